@@ -260,6 +260,13 @@ def systematic_edges():
             for v in (1, 2):
                 out.append(f'select * from int1.t1 join int2.t2 on t1.a = t2.a where {v} {op} {t}.b')
                 out.append(f'select * from int1.t1 left join int2.t2 on t1.a = t2.a where {v} {op} {t}.b and t1.c >= 0')
+    # the shape in which ORDER BY / LIMIT may follow the first table into its fetch (outer joins only, keys of the first table):
+    # every way of writing a sort key -- direction, NULLS FIRST / LAST, two keys -- has to arrive there as it was written
+    for ob in ('{a}.b', '{a}.b desc', '{a}.b nulls last', '{a}.b asc nulls last', '{a}.b desc nulls first', '{a}.b nulls first',
+               '{a}.b desc nulls last', '{a}.c nulls last, {a}.b desc', '{a}.b desc nulls first, {a}.a'):
+        for lim in ('limit 1', 'limit 2', 'limit 2 offset 1'):
+            out.append(f'select * from int1.t1 left join int2.t2 on t1.a = t2.a order by {ob.format(a="t1")} {lim}')
+        out.append(f'select x.a, x.b, y.c from int1.t1 as x left join int2.t2 as y on x.a = y.a left join int3.t3 on y.a = t3.a order by {ob.format(a="x")} limit 2')
     for c1, c2, c3, c4 in itertools.product(COLS, repeat=4):
         out.append(f'select * from int1.t1 join int2.t2 on t1.{c1} = t2.{c2} join int3.t3 on t2.{c3} = t3.{c4}')
         if c1 == c3:
@@ -328,7 +335,7 @@ def prepare(sql, cname, cat_kw, rng, ndb, N, plan_fn=None, extra_alts=None):
             raise sqlcoq.Unsupported('nested step numbering')
     tsteps = [tr.step(s) for s in steps]
     alts = {}
-    for aname, fn in (('no_fetch_limit', alt_no_fetch_limit), ('api_star', alt_api_star)):
+    for aname, fn in (('no_fetch_limit', alt_no_fetch_limit), ('api_star', alt_api_star), ('fetch_order_as_written', alt_fetch_order_as_written)):
         try:
             a = fn(copy.deepcopy(steps), q0)
             if a is not None:
@@ -394,6 +401,32 @@ def alt_no_fetch_limit(steps, q0):
     if isinstance(last, S.QueryStep) and isinstance(q0, ast.Select) and last.query.offset is None:
         last.query.offset = copy.deepcopy(q0.offset)
     return steps
+
+
+def alt_fetch_order_as_written(steps, q0):
+    """counterfactual plan: a fetch that carries a pushed LIMIT sorts by the ORDER BY of the statement exactly as it was written
+    (direction and NULLS FIRST / LAST; only the table qualifier removed).  None when the plan already does: a failure this plan
+    cures lies in how the sort keys were copied, not in the decision to push the LIMIT (the listed finding)"""
+    from mindsdb_sql.parser import ast
+    from mindsdb_sql.planner import steps as S
+    if not isinstance(q0, ast.Select) or not q0.order_by:
+        return None
+    joined = set()
+    for s in steps:
+        if isinstance(s, S.JoinStep):
+            joined |= {s.left.step_num, s.right.step_num}
+    changed = False
+    for s in steps:
+        if isinstance(s, S.FetchDataframeStep) and s.step_num in joined and isinstance(s.query, ast.Select) and s.query.limit is not None \
+                and s.query.order_by:
+            want = copy.deepcopy(q0.order_by)
+            for o in want:
+                if isinstance(o.field, ast.Identifier):
+                    o.field.parts = [o.field.parts[-1]]
+            if [o.to_string() for o in want] != [o.to_string() for o in s.query.order_by]:
+                s.query.order_by = want
+                changed = True
+    return steps if changed else None
 
 
 def alt_api_star(steps, q0):
@@ -549,6 +582,9 @@ def run(tier, seed, replay=None):
         feats = classify(p['sql'])
         # attribution: which counterfactual plan (one planner decision undone) is acceptable on this database
         cured = sorted(a for a, code in p.get('altv', {}).get(j, {}).items() if code == 0)
+        if 'fetch_order_as_written' in cured:
+            # the pushed LIMIT is fine once the fetch sorts as the statement says: not the listed decision to push it
+            cured = [a for a in cured if 'no_fetch_limit' not in a]
         fd = [f for f in findings if f['classifier'].get('kind') == 'plan_differs' and f['classifier'].get('cured_by') in cured]
         if not fd:
             # cured only when two listed decisions are undone together: both findings apply
